@@ -835,6 +835,38 @@ namespace bloch::runtime {
                     case Value::Type::ObjectArray:
                         oss << "object[]";
                         break;
+                    // every parameter type needs a label of its own: overloads (and vtable
+                    // slots) are told apart by this string
+                    case Value::Type::Long:
+                        oss << "long";
+                        break;
+                    case Value::Type::Boolean:
+                        oss << "boolean";
+                        break;
+                    case Value::Type::IntArray:
+                        oss << "int[]";
+                        break;
+                    case Value::Type::LongArray:
+                        oss << "long[]";
+                        break;
+                    case Value::Type::FloatArray:
+                        oss << "float[]";
+                        break;
+                    case Value::Type::BitArray:
+                        oss << "bit[]";
+                        break;
+                    case Value::Type::BooleanArray:
+                        oss << "boolean[]";
+                        break;
+                    case Value::Type::StringArray:
+                        oss << "string[]";
+                        break;
+                    case Value::Type::CharArray:
+                        oss << "char[]";
+                        break;
+                    case Value::Type::QubitArray:
+                        oss << "qubit[]";
+                        break;
                     default:
                         oss << "unknown";
                         break;
